@@ -49,10 +49,12 @@ import (
 type vHalf struct {
 	mu      sync.Mutex
 	cond    *sync.Cond
-	buf     []byte // written, not yet read
-	log     []byte // everything ever written (the tap)
-	wclosed bool   // writer closed: reader sees EOF after draining
-	rclosed bool   // reader closed locally
+	chunks  [][]byte // everything ever written, one slice per Write (the tap)
+	next    int      // first chunk with unread bytes
+	off     int      // read offset inside chunks[next]
+	total   int
+	wclosed bool // writer closed: reader sees EOF after draining
+	rclosed bool // reader closed locally
 }
 
 func newVHalf() *vHalf {
@@ -62,11 +64,14 @@ func newVHalf() *vHalf {
 }
 
 func (h *vHalf) write(p []byte) {
-	h.mu.Lock()
-	h.log = append(h.log, p...)
-	if !h.rclosed && !h.wclosed {
-		h.buf = append(h.buf, p...)
+	if len(p) == 0 {
+		return
 	}
+	cp := make([]byte, len(p))
+	copy(cp, p)
+	h.mu.Lock()
+	h.chunks = append(h.chunks, cp)
+	h.total += len(cp)
 	h.mu.Unlock()
 	h.cond.Broadcast()
 }
@@ -77,31 +82,40 @@ func (h *vHalf) read(p []byte, limit int) (int, error) {
 	}
 	h.mu.Lock()
 	defer h.mu.Unlock()
-	for len(h.buf) == 0 && !h.wclosed && !h.rclosed {
+	for h.next == len(h.chunks) && !h.wclosed && !h.rclosed {
 		h.cond.Wait()
 	}
 	if h.rclosed {
 		return 0, io.ErrClosedPipe
 	}
-	if len(h.buf) == 0 {
+	if h.next == len(h.chunks) {
 		return 0, io.EOF
 	}
-	n := len(p)
-	if n > len(h.buf) {
-		n = len(h.buf)
+	if limit > 0 && len(p) > limit {
+		p = p[:limit]
 	}
-	if limit > 0 && n > limit {
-		n = limit
+	n := 0
+	for n < len(p) && h.next < len(h.chunks) {
+		k := copy(p[n:], h.chunks[h.next][h.off:])
+		n += k
+		h.off += k
+		if h.off == len(h.chunks[h.next]) {
+			h.next++
+			h.off = 0
+		}
 	}
-	copy(p, h.buf[:n])
-	h.buf = h.buf[n:]
 	return n, nil
 }
 
+// snapshot joins the tap into one byte string.
 func (h *vHalf) snapshot() []byte {
 	h.mu.Lock()
 	defer h.mu.Unlock()
-	return h.log
+	out := make([]byte, 0, h.total)
+	for _, c := range h.chunks {
+		out = append(out, c...)
+	}
+	return out
 }
 
 // vConn is one end. Writes never block (unbounded buffer) and succeed even after the peer
@@ -144,7 +158,6 @@ func (c *vConn) Close() error {
 	c.wr.cond.Broadcast()
 	c.rd.mu.Lock()
 	c.rd.rclosed = true
-	c.rd.buf = nil
 	c.rd.mu.Unlock()
 	c.rd.cond.Broadcast()
 	return nil
@@ -235,11 +248,11 @@ func vParseFrames(b []byte) ([]vFrame, string) {
 		if uint64(len(b)-p) < n {
 			return out, fmt.Sprintf("truncated payload: header announces %d bytes, %d present", n, len(b)-p)
 		}
-		f.payload = make([]byte, n)
-		copy(f.payload, b[p:p+int(n)])
+		f.payload = b[p : p+int(n) : p+int(n)]
 		if f.masked {
-			for i := range f.payload {
-				f.payload[i] ^= f.key[i&3]
+			f.payload = make([]byte, n)
+			for i, x := range b[p : p+int(n)] {
+				f.payload[i] = x ^ f.key[i&3]
 			}
 		}
 		out = append(out, f)
@@ -399,6 +412,21 @@ func vPayload(rng *rand.Rand, typ byte, n int) []byte {
 }
 
 func vLen(rng *rand.Rand, thorough bool) int {
+	if vRaceBuild {
+		// small volume: under the race detector large buffers are very expensive
+		switch x := rng.IntN(100); {
+		case x < 30:
+			return vBoundaries[rng.IntN(7)]
+		case x < 40:
+			return vBoundaries[7+rng.IntN(4)]
+		case x < 85:
+			return rng.IntN(300)
+		case x < 95:
+			return 300 + rng.IntN(8000)
+		default:
+			return 300 + rng.IntN(70000)
+		}
+	}
 	switch x := rng.IntN(100); {
 	case x < 30:
 		return vBoundaries[rng.IntN(len(vBoundaries))]
@@ -495,6 +523,14 @@ func vGenLimitDir(rng *rand.Rand, name string) *vDir {
 	if rng.IntN(3) == 0 {
 		m = 1 + rng.IntN(70000)
 	}
+	over := 70000
+	if vRaceBuild && rng.IntN(6) != 0 { // small volume under the race detector
+		m = []int{1, 2, 10, 124, 125, 126, 127, 1000, 4095, 4096, 4097}[rng.IntN(11)]
+		if rng.IntN(3) == 0 {
+			m = 1 + rng.IntN(8000)
+		}
+		over = 6000
+	}
 	d.maxPayload = m
 	if rng.IntN(5) == 0 {
 		d.sendAPI, d.recvAPI = vSendJSON, vRecvJSON
@@ -516,9 +552,12 @@ func vGenLimitDir(rng *rand.Rand, name string) *vDir {
 		case 2:
 			n = m - 1
 		case 3, 4:
-			n = m + 1 + rng.IntN(70000)
+			n = m + 1 + rng.IntN(over)
 		case 5:
 			n = m + []int{2, 125, 126, 127, 4096, 65535, 65536, 69999, 70000}[rng.IntN(9)]
+			if over < 70000 {
+				n = m + []int{2, 125, 126, 127, 4096}[rng.IntN(5)]
+			}
 		default:
 			n = rng.IntN(m + 1)
 		}
@@ -1348,6 +1387,7 @@ func TestVerif_C59(t *testing.T) {
 	r.Assume("synctest.Wait() returning with an endpoint still unfinished means the endpoint can never finish (all blocking in the harness is sync.Cond / channel based)")
 	thorough := r.Thorough()
 	const workers = 8
+	nRandom, nLimit, nRaw := r.N(110, 500), r.N(90, 300), r.N(70, 300)
 
 	// 1. every boundary length, both types, both directions, every API pairing
 	type combo struct{ send, recv int }
@@ -1359,9 +1399,14 @@ func TestVerif_C59(t *testing.T) {
 		mk := func(name string) *vDir {
 			d := &vDir{name: name, sendAPI: cb.send, recvAPI: cb.recv, readSeed: c.Rng.Uint64(), expectEnd: name == "c2s"}
 			lens := append([]int{}, vBoundaries...)
-			lens = append(lens, 1<<20-1, 1<<20, 1<<20+1)
+			if !vRaceBuild {
+				lens = append(lens, 1<<20-1, 1<<20, 1<<20+1)
+			}
 			for _, n := range lens {
-				for _, t := range []byte{TextFrame, BinaryFrame} {
+				for ti, t := range []byte{TextFrame, BinaryFrame} {
+					if n >= 1<<20 && ti != (n+c.Index)%2 {
+						continue // the big ones once per length, alternating type
+					}
 					d.items = append(d.items, vItem{kind: 'd', typ: t, payload: vPayload(c.Rng, t, n)})
 					if n == 125 || n == 65536 {
 						d.items = append(d.items, vItem{kind: 'p', payload: vCtlPayload(c.Rng)})
@@ -1380,7 +1425,7 @@ func TestVerif_C59(t *testing.T) {
 	})
 
 	// 2. random package<->package sessions
-	r.CasesParallel("random", r.N(160, 2500), workers, func(c *verifrt.Case) {
+	r.CasesParallel("random", nRandom, workers, func(c *verifrt.Case) {
 		s := &vSession{r: r, c: c, kind: "pkg-pkg"}
 		s.c2s = vGenDir(c.Rng, "c2s", thorough, 1+c.Rng.IntN(10))
 		s.s2c = vGenDir(c.Rng, "s2c", thorough, 1+c.Rng.IntN(10))
@@ -1394,7 +1439,7 @@ func TestVerif_C59(t *testing.T) {
 	})
 
 	// 3. MaxPayloadBytes sessions
-	r.CasesParallel("limit", r.N(120, 2000), workers, func(c *verifrt.Case) {
+	r.CasesParallel("limit", nLimit, workers, func(c *verifrt.Case) {
 		s := &vSession{r: r, c: c, kind: "limit"}
 		if c.Rng.IntN(2) == 0 {
 			s.c2s = vGenLimitDir(c.Rng, "c2s")
@@ -1413,7 +1458,7 @@ func TestVerif_C59(t *testing.T) {
 	})
 
 	// 4. scripted raw client against the package server
-	r.CasesParallel("rawclient", r.N(100, 1500), workers, func(c *verifrt.Case) {
+	r.CasesParallel("rawclient", nRaw, workers, func(c *verifrt.Case) {
 		s := &vSession{r: r, c: c, kind: "rawclient"}
 		s.c2s = vGenRawDir(c.Rng, "c2s", true, thorough)
 		s.s2c = vGenDir(c.Rng, "s2c", false, 1+c.Rng.IntN(4))
@@ -1426,7 +1471,7 @@ func TestVerif_C59(t *testing.T) {
 	})
 
 	// 5. scripted raw server against the package client
-	r.CasesParallel("rawserver", r.N(100, 1500), workers, func(c *verifrt.Case) {
+	r.CasesParallel("rawserver", nRaw, workers, func(c *verifrt.Case) {
 		s := &vSession{r: r, c: c, kind: "rawserver"}
 		s.c2s = vGenDir(c.Rng, "c2s", false, 1+c.Rng.IntN(4))
 		s.s2c = vGenRawDir(c.Rng, "s2c", false, thorough)
@@ -1435,7 +1480,7 @@ func TestVerif_C59(t *testing.T) {
 		r.Event("sessions_rawserver", 1)
 	})
 
-	r.Require("sessions_completed", int64(r.N(400, 6000)))
+	r.Require("sessions_completed", int64(len(combos)+nRandom+nLimit+2*nRaw))
 	r.Require("messages_delivered", 1500)
 	r.Require("wire_lenform_7", 300)
 	r.Require("wire_lenform_16", 300)
@@ -1449,5 +1494,8 @@ func TestVerif_C59(t *testing.T) {
 	for _, b := range vBoundaries {
 		r.Require(fmt.Sprintf("delivered_len_%d", b), 12)
 	}
-	r.Require("delivered_len_ge_1MiB", 12)
+	if !vRaceBuild {
+		r.Require("delivered_len_ge_1MiB", 12)
+	}
+	r.SetExtra("race_build_small_volume", vRaceBuild)
 }
